@@ -54,6 +54,8 @@ func runCLI(args []string) int {
 		return cmdCheck(args[1:])
 	case "list":
 		return cmdList(args[1:])
+	case "replay":
+		return cmdReplay(args[1:])
 	}
 	fmt.Fprintln(os.Stderr, "unknown command", args[0])
 	return 2
@@ -189,16 +191,33 @@ func cmdCheck(args []string) int {
 		o  *Obligation
 		kf *KnownFinding
 		canary bool
+		getValues []string
 	}
 	var jobs []*job
 	var frs []*FuncResult
+	adapters := loadAdapters()
 	for _, c := range targets {
 		fn := fnByKey[c.Key]
 		if fn == nil {
 			rep.problems = append(rep.problems, fmt.Sprintf("function under contract not found or has no body: %s (%s:%d)", c.Key, c.File, c.Line))
 			continue
 		}
-		fr := verifyFunction(P, db, ti, fn, c)
+		entryExprs := map[string]string{}
+		for i := range known.Findings {
+			kf := &known.Findings[i]
+			if kf.Property == *prop && kf.Function == c.Key && kf.Excuse != "" {
+				entryExprs["excuse:"+kf.ID] = kf.Excuse
+			}
+		}
+		for ai := range adapters {
+			a := &adapters[ai]
+			if ok, _ := regexp.MatchString("^(?:"+a.Function+")$", c.Key); ok {
+				for n, src := range a.Observe {
+					entryExprs[fmt.Sprintf("observe:%d:%s", ai, n)] = src
+				}
+			}
+		}
+		fr := verifyFunction(P, db, ti, fn, c, entryExprs)
 		frs = append(frs, fr)
 		rep.funcs = append(rep.funcs, c.Key)
 		for _, u := range fr.Unsupported {
@@ -222,29 +241,41 @@ func cmdCheck(args []string) int {
 			jobs = append(jobs, j)
 		}
 	}
-	// evaluate excuses (extends the encodings)
+	// excuses and replay observables were evaluated in the entry state by verifyFunction
 	excuseTerm := map[*job]string{}
 	for _, j := range jobs {
-		if j.kf == nil {
+		if j.kf != nil {
+			if er, bad := j.fr.EntryErrs["excuse:"+j.kf.ID]; bad {
+				rep.problems = append(rep.problems, "known finding "+j.kf.ID+": "+er)
+				j.kf = nil
+			} else if t, ok := j.fr.EntryTerms["excuse:"+j.kf.ID]; ok && t.S == "Bool" {
+				excuseTerm[j] = t.T
+			} else {
+				rep.problems = append(rep.problems, "known finding "+j.kf.ID+": excuse is not a boolean expression")
+				j.kf = nil
+			}
+		}
+		if j.o.Cover {
 			continue
 		}
-		ex, err := parseExpr(j.kf.Excuse)
-		if err != nil {
-			rep.problems = append(rep.problems, "known finding "+j.kf.ID+": "+err.Error())
-			j.kf = nil
-			continue
+		for ai := range adapters {
+			a := &adapters[ai]
+			if findAdapter(adapters[ai:ai+1], j.o.Func, j.o.Name) == nil {
+				continue
+			}
+			rj := &replayJob{adapter: a}
+			for _, n := range sortedKeys(a.Observe) {
+				k := fmt.Sprintf("observe:%d:%s", ai, n)
+				if t, ok := j.fr.EntryTerms[k]; ok {
+					rj.names = append(rj.names, n)
+					j.getValues = append(j.getValues, t.T)
+				} else if er, bad := j.fr.EntryErrs[k]; bad {
+					rep.notes = appendUniq(rep.notes, "replay adapter "+a.Template+" observable "+n+": "+er)
+				}
+			}
+			replays[j.o] = rj
+			break
 		}
-		e := j.fr.Enc
-		env := e.envFor(e.top, e.top.entry)
-		env.fr = nil
-		t, err := env.evalBool(ex)
-		if err != nil {
-			rep.problems = append(rep.problems, "known finding "+j.kf.ID+": "+err.Error())
-			j.kf = nil
-			continue
-		}
-		excuseTerm[j] = t
-		j.o.N = len(e.out)
 	}
 	// canaries: the excused region must still be reachable
 	var all []*job
@@ -283,7 +314,7 @@ func cmdCheck(args []string) int {
 					extra = not(excuseTerm[j])
 				}
 			}
-			script := j.o.script(j.fr.Enc, extra)
+			script := j.o.script(j.fr.Enc, extra, j.getValues)
 			to := timeout
 			if j.o.Cover {
 				to = 10 * time.Second
@@ -295,6 +326,9 @@ func cmdCheck(args []string) int {
 			r := runPortfolio(script, scratch, name, to, seed, *tier == "thorough" && !j.o.Cover)
 			j.o.Result, j.o.Solver, j.o.Seconds, j.o.Model, j.o.Raw, j.o.Bytes = r.result, r.solver, r.seconds, r.model, r.raw, len(script)
 			mu.Lock()
+			if rj := replays[j.o]; rj != nil && r.result == "sat" && len(j.getValues) > 0 {
+				rj.values = parseGetValue(r.model, len(j.getValues))
+			}
 			for s, t := range r.perSolver {
 				solverSecs[s] += t
 			}
@@ -450,4 +484,41 @@ func declareOpaque(P *Program, db *SpecDB, ti *TypeInfo) {
 		db.ZeroInit[typeStr(gt)] = zd.ZI
 	}
 	_ = sort.Strings
+}
+
+// cmdReplay re-runs a recorded counterexample (replays/<prop>/<obligation>.json + .input.json) on the real code.
+func cmdReplay(args []string) int {
+	if len(args) != 1 {
+		fmt.Fprintln(os.Stderr, "usage: govc replay <replay.json>")
+		return 2
+	}
+	inPath := strings.TrimSuffix(args[0], ".json") + ".input.json"
+	data, err := os.ReadFile(inPath)
+	if err != nil {
+		fmt.Println("this replay record carries no executable input (no-failing-input-found); the record itself names the failed obligation and the solver output:")
+		rec, _ := os.ReadFile(args[0])
+		fmt.Println(truncStr(string(rec), 6000))
+		return 1
+	}
+	var in struct {
+		Property, Function, Obligation, Kind string
+		Values                               map[string]string
+	}
+	if err := json.Unmarshal(data, &in); err != nil {
+		fmt.Fprintln(os.Stderr, err)
+		return 2
+	}
+	a := findAdapter(loadAdapters(), in.Function, in.Obligation)
+	if a == nil {
+		fmt.Fprintln(os.Stderr, "no replay adapter for", in.Function, in.Obligation)
+		return 2
+	}
+	ok, out := runReplay(a, in.Property, in.Function, in.Obligation, in.Kind, in.Values, "")
+	fmt.Println(out)
+	if ok {
+		fmt.Println("violation reproduced on the real code")
+		return 1
+	}
+	fmt.Println("violation NOT reproduced on the current tree")
+	return 0
 }
